@@ -472,14 +472,17 @@ func trimPathPrefix(u *url.URL, prefix string) *url.URL {
 	if u.RawQuery != "" || u.ForceQuery == true {
 		trimmedURI = trimmedPath + "?" + u.RawQuery
 	}
-	if u.Fragment != "" {
-		trimmedURI = trimmedURI + "#" + u.Fragment
-	}
-	trimmedURL, err := url.Parse(trimmedURI)
+	// What is left is a path even when it begins with two slashes (/site//x/..):
+	// parse it as a request URI, which never takes "//x" for an authority. Parsing
+	// it as a URL reference would turn x into the host, and the file server's
+	// redirects would then point at another origin.
+	trimmedURL, err := url.ParseRequestURI(trimmedURI)
 	if err != nil {
 		log.Printf("[ERROR] Unable to parse trimmed URL %s: %v", trimmedURI, err)
 		return u
 	}
+	trimmedURL.Fragment = u.Fragment
+	trimmedURL.RawFragment = u.RawFragment
 	return trimmedURL
 }
 
